@@ -43,7 +43,7 @@ class Facet:
     """
 
     def __init__(self, name, check, strategy=None, enumerate=None, examples=(200, 2000),
-                 shards=(4, 16), shrink=True, setup=None):
+                 shards=(4, 16), shrink=True, setup=None, native=False, hang_is_violation=False):
         self.name = name
         self.check = check
         self.strategy = strategy
@@ -52,6 +52,8 @@ class Facet:
         self.shards = shards
         self.shrink = shrink
         self.setup = setup
+        self.native = native                        # calls native code: keep a breadcrumb per case
+        self.hang_is_violation = hang_is_violation  # absence of hang is part of the property
 
 
 def canon_json(x):
@@ -164,8 +166,8 @@ def _facet_seed(seed, facet, shard):
     return int.from_bytes(h, "big")
 
 
-def run_task(prop, tier, seed, facet_name, shard, nshards):
-    """Run one (facet, shard) task; returns a picklable dict."""
+def run_task(prop, tier, seed, facet_name, shard, nshards, crumb=None):
+    """Run one (facet, shard) task; returns a JSON-serialisable dict."""
     t0 = time.time()
     os.environ.setdefault("PYTHONHASHSEED", "0")
     out = {"facet": facet_name, "shard": shard, "violations": [], "harness_errors": []}
@@ -175,6 +177,14 @@ def run_task(prop, tier, seed, facet_name, shard, nshards):
         facet = [f for f in mod.FACETS if f.name == facet_name][0]
         if facet.setup:
             facet.setup(ctx)
+        if crumb and (facet.setup is not None or facet.native):
+            inner = facet.check
+
+            def check_with_crumb(c, spec, _inner=inner):
+                with open(crumb, "w") as f:
+                    json.dump(spec, f, default=str)
+                _inner(c, spec)
+            facet.check = check_with_crumb
         ti = 0 if tier == "quick" else 1
         if facet.enumerate is not None:
             for idx, spec in enumerate(facet.enumerate(ctx)):
@@ -244,6 +254,24 @@ def _known_findings():
 
 
 def replay(prop, path):
+    """Replay in a child process so that a crash of native code is reported, not suffered."""
+    import subprocess
+    args = json.dumps({"prop": prop, "replay": path})
+    try:
+        r = subprocess.run([sys.executable, "-W", "ignore", "-m", "vlib.task", args], cwd=VERIF,
+                           timeout=float(os.environ.get("VERIF_REPLAY_TIMEOUT_S", "600")))
+    except subprocess.TimeoutExpired:
+        print("replay: the case did not return within the time limit (hang)")
+        print("VIOLATION property=%s replay=%s" % (prop, path))
+        return 1
+    if r.returncode < 0:
+        print("replay: process killed by signal %d while checking the case" % -r.returncode)
+        print("VIOLATION property=%s replay=%s" % (prop, path))
+        return 1
+    return r.returncode
+
+
+def replay_inproc(prop, path):
     mod = _load(prop)
     with open(path) as f:
         rec = json.load(f)
@@ -263,7 +291,6 @@ def replay(prop, path):
 
 def main(prop, tier, seed, only_facets=None):
     import concurrent.futures
-    import multiprocessing
 
     t0 = time.time()
     os.environ["PYTHONHASHSEED"] = "0"
@@ -306,33 +333,64 @@ def main(prop, tier, seed, only_facets=None):
         for s in range(ns):
             tasks.append((prop, tier, seed, f.name, s, ns))
     workers = min(16, max(1, len(tasks)), int(os.environ.get("VERIF_WORKERS", "16")))
+    budget = float(os.environ.get("VERIF_BUDGET_S", "900" if tier == "quick" else "14400"))
+    crash_violations = []
     if os.environ.get("VERIF_INPROC"):
         for t in tasks:
             results.append(run_task(*t))
     else:
-        mp = multiprocessing.get_context("spawn")
-        budget = float(os.environ.get("VERIF_BUDGET_S", "900" if tier == "quick" else "14400"))
-        ex = concurrent.futures.ProcessPoolExecutor(max_workers=workers, mp_context=mp)
-        try:
-            futs = [ex.submit(run_task, *t) for t in tasks]
-            done, not_done = concurrent.futures.wait(futs, timeout=budget)
-            for fu, t in zip(futs, tasks):
-                if fu in not_done:
-                    harness_errors.append("inconclusive: %s[%d] exceeded the %.0f s budget" % (t[3], t[4], budget))
-                    continue
+        import shutil
+        import subprocess
+        import tempfile
+        os.makedirs(os.path.join(VERIF, ".work"), exist_ok=True)
+        wdir = tempfile.mkdtemp(prefix="run-%s-" % prop, dir=os.path.join(VERIF, ".work"))
+        facet_by_name = {f.name: f for f in facets}
+
+        def launch(t):
+            _, _, _, fname, shard, ns = t
+            base = os.path.join(wdir, "%s-%d" % (fname, shard))
+            args = json.dumps({"prop": prop, "tier": tier, "seed": seed, "facet": fname, "shard": shard,
+                               "nshards": ns, "out": base + ".json", "crumb": base + ".crumb"})
+            t_start = time.time()
+            try:
+                pr = subprocess.run([sys.executable, "-W", "ignore", "-m", "vlib.task", args], cwd=VERIF,
+                                    timeout=budget, capture_output=True, text=True)
+                rc, err, timed_out = pr.returncode, pr.stderr[-1500:], False
+            except subprocess.TimeoutExpired:
+                rc, err, timed_out = None, "", True
+            res = None
+            if os.path.exists(base + ".json"):
+                with open(base + ".json") as f:
+                    res = json.load(f)
+            crumb = None
+            if os.path.exists(base + ".crumb"):
                 try:
-                    results.append(fu.result())
-                except Exception as e:  # noqa: BLE001  (worker died)
-                    harness_errors.append("worker for %s[%d] died: %s" % (t[3], t[4], e))
-        finally:
-            procs = list(getattr(ex, "_processes", {}).values())
-            ex.shutdown(wait=False, cancel_futures=True)
-            for pr in procs:
-                try:
-                    if pr.is_alive():
-                        pr.kill()
+                    with open(base + ".crumb") as f:
+                        crumb = json.load(f)
                 except Exception:  # noqa: BLE001
-                    pass
+                    crumb = None
+            return t, rc, err, timed_out, res, crumb, time.time() - t_start
+
+        with concurrent.futures.ThreadPoolExecutor(max_workers=workers) as ex:
+            for t, rc, err, timed_out, res, crumb, wall in ex.map(launch, tasks):
+                fname, shard = t[3], t[4]
+                if res is not None:
+                    results.append(res)
+                    continue
+                fobj = facet_by_name[fname]
+                if timed_out:
+                    if fobj.hang_is_violation and crumb is not None:
+                        crash_violations.append({"facet": fname, "spec": crumb, "key": "hang",
+                                                 "message": "the code under test did not return within %.0f s on this case" % budget})
+                    else:
+                        harness_errors.append("inconclusive: %s[%d] exceeded the %.0f s budget" % (fname, shard, budget))
+                elif rc is not None and rc < 0 and crumb is not None:
+                    crash_violations.append({"facet": fname, "spec": crumb, "key": "crash:signal%d" % -rc,
+                                             "message": "process killed by signal %d while the code under test ran this case" % -rc})
+                else:
+                    harness_errors.append("task %s[%d] ended with status %r and no result: %s" % (fname, shard, rc, err))
+        shutil.rmtree(wdir, ignore_errors=True)
+    violations.extend(crash_violations)
 
     # 3. merge
     evaluations = 0
